@@ -253,6 +253,10 @@ def programs_d(ci):
     out.append(("retarget_during_own_operation", dict(base, threads=[
         [dict(w("p"), h=0), dict(w("q"), h=0)], [{"h": 0, "m": "set_filename", "a": [1]}],
         [dict(w("r"), h=1), dict(w("s"), h=2)]])))
+    # a temporary object on the file is created and garbage-collected while others operate on it
+    out.append(("temporary_object_finalised_during_operations", dict(base, threads=[
+        [dict(w("p"), h=0), dict(w("q"), h=0)], [{"h": 0, "m": "construct_drop", "a": [0]}, dict(w("s"), h=1)],
+        [dict(w("r"), h=1)]])))
     if ci.buffered:
         # a PLAIN-class object and a buffered-class object on one file, and a buffered object of
         # another file as operand of the plain object's operation
@@ -275,6 +279,21 @@ def programs_d(ci):
             [{"h": 2, "m": "ctx_enter_cls", "a": []}, dict(w("q"), h=2), {"h": 0, "m": "ctx_exit_own", "a": []},
              dict(w("r"), h=1)]])))
     return out
+
+
+# part D programs in which no operation may fail either (no conflicting writers by construction)
+# (not the cross-operand programs: reading the other collection while its own thread mutates it is
+# known finding K3's domain - there only deadlocks and leaked locks are judged)
+D_ALL_OPS_OK = {"temporary_object_finalised_during_operations", "retarget_during_own_operation"}
+
+
+def judge_d(program, sc, res, name):
+    d = judge_b(program, sc, res)
+    if d is None and name in D_ALL_OPS_OK:
+        bad = [(ti, h["op"], h["out"]) for ti, t in enumerate(res["history"]) for h in t if h["out"][0] != "ok"]
+        if bad:
+            return {"what": "operation_failed", "program": name, "failed": bad[:3], "schedule": sc}
+    return d
 
 
 def judge_c(program, sc, res):
@@ -320,15 +339,15 @@ def run_shard(spec, seed, tier, active):
     if spec["part"] == "D":
         for name, program in programs_d(ci):
             T = len(program["threads"])
-            conc.MAX_SCHEDULES[0] = 700 if tier == "quick" else 20000
+            conc.MAX_SCHEDULES[0] = 450 if tier == "quick" else 20000
             base, bres, ones, exhaustive = conc.one_preemption_schedules(
-                program, T, full_limit=400 if tier == "quick" else 4000)
+                program, T, full_limit=300 if tier == "quick" else 4000)
             results = bres + sched.explore(program, ones)
             ph = h64("D", ci.name, name)
             for sc, res in zip(base + ones, results):
                 ov = conc.overlapping(res)
                 acc.case([h64(ph, str(s[3])) for s in ov], None, {"D.executions": 1, "D." + name: 1})
-                d = judge_b(program, sc, res)
+                d = judge_d(program, sc, res, name)
                 if d is not None and not any(f["case"].get("name") == name for f in acc.failures):
                     acc.failures.append({"case": {"property": ID, "engine": "sched", "part": "D", "name": name,
                                                   "program": program, "schedule": sc}, "desc": d})
@@ -373,4 +392,6 @@ def replay(case):
         return judge_a(res, want_t1=len(program["threads"][1]))
     if case.get("part") == "C":
         return judge_c(program, sc, res)
+    if case.get("part") == "D":
+        return judge_d(program, sc, res, case.get("name"))
     return judge_b(program, sc, res)
